@@ -180,6 +180,7 @@ fn gen_run(rng: &mut Rng) -> RunSpec {
         cli_prepend,
         cli_append,
         cli_timeout_s: None,
+            cram_compat: false,
     }
 }
 
@@ -302,6 +303,7 @@ impl Monitor for C20 {
                 cli_prepend: vec![],
                 cli_append: vec![],
                 cli_timeout_s: None,
+            cram_compat: false,
             },
             summary: false,
         }
